@@ -46,7 +46,8 @@ var preIdents = []string{
 // nugetIdents: NuGet reads an all-digit identifier as a number only while it
 // fits 32 bits; longer digit strings (build timestamps) are text.
 var nugetIdents = []string{"0", "1", "2", "10", "alpha", "Alpha", "ALPHA", "beta", "rc", "RC", "a", "B", "rc1", "x-y", "2147483647", "2147483648", "01",
-	"202401010000", "20231231235959", "2023w52", "99999999999", "3000000000", "3a", "-", "9"}
+	"202401010000", "20231231235959", "2023w52", "99999999999", "3000000000", "3a", "-", "9",
+	"-1", "-5", "-2147483648", "-1000000001", "-0000000001", "-2147483649"}
 
 func ident(t *rapid.T, label string, leadingZero bool) string {
 	k := rapid.IntRange(0, 9).Draw(t, label+"k")
@@ -577,6 +578,23 @@ func Triple(sys semver.System, g *rapid.Generator[string]) *rapid.Generator[[3]s
 		out[0] = a
 		// One slot, three identifiers: the versions agree except for their last
 		// prerelease identifier (comparator laws are decided there).
+		// Maven: one numeric prefix, three endings (bare, a qualifier after '.'
+		// or '-', with or without a number): the padding rules for versions of
+		// different length are where transitivity is at stake.
+		if sys == semver.Maven && rapid.IntRange(0, 4).Draw(t, "mvnprefix") == 0 {
+			end := 0
+			for end < len(a) && (a[end] >= '0' && a[end] <= '9' || a[end] == '.') {
+				end++
+			}
+			prefix := strings.TrimRight(a[:end], ".")
+			if prefix != "" {
+				endings := []string{"", "", "-rc1", ".rc1", "-SP1", ".SP1", "-sp", ".sp", "-SNAPSHOT", ".SNAPSHOT", "-beta2", ".beta2", "-alpha", ".Final", "-ga", ".1", "-1", ".0", "-foo", ".foo", "-SP1-SNAPSHOT", ".SP1-SNAPSHOT", "-cr1", "-m1"}
+				for k := 0; k < 3; k++ {
+					out[k] = prefix + rapid.SampledFrom(endings).Draw(t, "ending")
+				}
+				return out
+			}
+		}
 		switch sys {
 		case semver.Maven, semver.PyPI, semver.RubyGems:
 		default:
